@@ -21,6 +21,7 @@ RULE = (
     "stored pixel in the window and >=1 NaN weight in range. Distinct by sha1 of the canonical case."
     ' Pixel output is also requested with ignore_index=False (rows labelled with their own row numbers; values must still belong to their rows).'
     ' Part dump-balanced: `cooler dump --balanced` combined with every other dump option (regions, --join, --one-based-ids, --fill-lower, chunk sizes), judged by the text-dump oracle of C16.'
+    ' Weight datasets may carry attributes (divisive_weights=True/False, ignore_diags): they do not change how a column is read.'
     ' Weight columns may be written after creation through cooler.create.append (whole columns, or chunked=True with generated cuts).'
 )
 ASSUMPTIONS = ["weights are positive finite floats or NaN (what balancing writes)"]
@@ -133,6 +134,15 @@ def check_balanced(case, ctx: Ctx):
         else:
             call("create", create_from_model, path, bt, rows, symmetric, bins_extra=W, h5opts={"compression": None})
             clr = cooler.Cooler(path)
+        if case.get("append_cuts") and len(case["append_cuts"]) % 2:
+            # weight datasets may carry attributes (balancing stores its parameters there, other tools their own): the
+            # reading convention is decided by the caller's argument and the column NAME only
+            import h5py
+
+            with h5py.File(path, "r+") as f:
+                for t_, k_ in enumerate(sorted(W)):
+                    f["bins"][k_].attrs["divisive_weights"] = bool((t_ + len(rows)) % 2 == 0)
+                    f["bins"][k_].attrs["ignore_diags"] = 2
         out = case["out"]
         keep_index = bool(case.get("keep_index")) and out.startswith("pixels")
         sel = clr.matrix(balance=balance, sparse=(out == "sparse"), as_pixels=out.startswith("pixels"),
